@@ -4,7 +4,10 @@
    function (model_agrees, spec_ok, must_fail, well_formed).
 
    Case line:  <input> <derived> <observation>
-     input    (c <method> <path> (terr) | (r <status> <reqset> <ct> (<dav>...) <loc> <etag> <clen> <lmod> <body>))
+     input    (c <method> <path> (terr) | (r <status> <reqset> <ct> (<dav>...) <loc> <etag> <clen> <lmod> <body> <delivery>)
+                 [(hist <endpoint> (<method> <path> <resp>)...) | (ovl)])
+              delivery form, history (earlier calls on the same client values) and overlap are not
+              inputs of the model: each call is judged on its own answer
      derived  (d) | (d <mt> <cterr> <ct> <loc> <etag_ok> <len_ok> <mod_ok> <ical g|b|x> <vcard g|b|x> <xml>)
               what the parsers outside the model made of the input (computed by the harness with
               the real functions): xml = s | (e <ns> <local> <ann> <kid>...)
@@ -63,7 +66,7 @@ let hdr_vals = function L l -> List.map str l | _ -> raise (Parse_error "dav")
 let script_of resp derived =
   match resp, derived with
   | L [A "terr"], _ -> Terr
-  | L [A "r"; status; reqset; _ct; dav; _loc; _etag; _clen; _lmod; _body],
+  | L (A "r" :: status :: reqset :: _ct :: dav :: _),
     L [A "d"; mt; cterr; ct; loc; etag_ok; len_ok; mod_ok; ical_ok; vcard_ok; xml] ->
     Resp { h_status = n_of_int (int_ status); h_reqset = bool_ reqset; h_mt = str mt;
            h_ct_err = bool_ cterr; h_ct = str ct; h_dav = hdr_vals dav; h_loc = ann_of loc;
@@ -104,7 +107,22 @@ let show_out = function
 let () =
   run_file Sys.argv.(1) (fun _ sx ->
     match sx with
-    | [L [A "c"; A m; path; resp]; derived; L [A "o"; reqs; out]] ->
+    | [L (A "c" :: A m :: _) as input; _; L [A "o"; _; L [A ("argmod" | "aliased" as what)]]] ->
+      (* generator audit: the call changed a request value it was given / a value returned by an
+         earlier call on the same client changed afterwards *)
+      ignore input; bump ("method_" ^ m); bump ("obs_" ^ what);
+      verdict ~agree:false ~spec:false ~kf:"-"
+        ~detail:(if what = "argmod" then "the call modified a request value passed to it"
+                 else "a value returned by an earlier call changed when the client was used again")
+    | [L (A "c" :: A m :: path :: resp :: rest); derived; L [A "o"; reqs; out]] ->
+      (match rest with
+       | [L (A "hist" :: _ :: steps)] -> bump (Printf.sprintf "history_%d" (min 5 (List.length steps)))
+       | [L [A "ovl"]] -> bump "overlapping"
+       | _ -> ());
+      (match resp with
+       | L (A "r" :: fields) when List.length fields > 9 ->
+         (match List.nth fields 9 with A "0" -> () | A d -> bump ("delivery_" ^ d) | _ -> ())
+       | _ -> ());
       let meth = meth_of m and path = str path in
       let s = script_of resp derived in
       let o = { o_reqs = n_of_int (int_ reqs); o_out = outcome_of out } in
